@@ -5,7 +5,7 @@
 From Coq Require Import Reals Lra Field ZArith List Bool Psatz.
 Import ListNotations.
 Require Import MV.Lib.Base MV.C08.Ops MV.C08.Gen MV.C08.Model MV.C08.Proofs_Struct MV.C08.Proofs_Dual
-  MV.C08.Proofs_Graph MV.C08.Proofs_Geom.
+  MV.C08.Proofs_Graph MV.C08.Proofs_Geom MV.C08.Proofs_Mass MV.C08.Proofs_Gram.
 Open Scope R_scope.
 
 Definition Rltb (x y : R) : bool := if Rlt_dec x y then true else false.
@@ -213,9 +213,9 @@ Theorem real_cotan_laplacian (V : list rvec) (F : list face) :
   (forall f, In f F -> nondeg R Rops V f) ->
   forall i j,
     entry Rops (laplacian_cotan Rops (cot_code Rops) V F) i j = entry Rops (stiffness Rops V F) i j /\
-    entry Rops (laplacian_cotan Rops (cot_code Rops) V F) i j = entry Rops (gram Rops V F (conn_bases Rops V F)) i j.
+    entry Rops (laplacian_cotan Rops (cot_code Rops) V F) i j = entry Rops (gag_re Rops V F (conn_bases Rops V F)) i j.
 Proof.
-  intros H i j.
+  intros H i j. rewrite (gag_re_is_gram R Rops Rops_field).
   assert (E : laplacian_cotan Rops (cot_code Rops) V F = laplacian_cotan Rops (cot_simple Rops) V F).
   { unfold laplacian_cotan, laplacian_gen.
     assert (G : forall L : list face, (forall f, In f L -> nondeg R Rops V f) ->
@@ -373,3 +373,40 @@ Proof.
   - intros a b Ha Hin. assert (a = 0 \/ a = 1)%Z as [-> | ->] by lia; rewrite ?N0, ?N1 in Hin;
       destruct Hin as [<- | []]; lia.
 Qed.
+
+(* ------------------------------------------------------------------ edge masses are positive on every edge that bounds a face *)
+Definition has_face (F : list face) (e : edge) : Prop :=
+  direct_face_id F (fst e) (snd e) <> None \/ direct_face_id F (snd e) (fst e) <> None.
+
+Lemma znth_In_pos (w : list R) (t : Z) : (0 <= t < zlen w)%Z -> Forall (fun x => 0 < x) w -> 0 < znth w t 0.
+Proof.
+  intros Ht Hw. unfold znth. destruct (t <? 0)%Z eqn:Q; [lia|].
+  rewrite Forall_forall in Hw. apply Hw. apply nth_In. unfold zlen in Ht. lia.
+Qed.
+
+Theorem real_edge_mass_positive (V : list rvec) (F : list face) (E : list edge) :
+  (forall f, In f F -> nondeg R Rops V f) ->
+  Forall2 (fun e x => has_face F e -> 0 < x) E (edge_acc Rops F (areas Rops V F) E).
+Proof.
+  intros Hnd. pose proof (areas_pos V F Hnd) as Hpos.
+  set (w := areas Rops V F) in *.
+  assert (HL : zlen w = zlen F) by (unfold zlen, w, areas; rewrite map_length; reflexivity).
+  assert (S1 : forall u v, Forall (fun x => 0 < x)
+            (match direct_face_id F u v with Some t => [mass_edge_share Rops (znth w t 0)] | None => [] end)).
+  { intros u v. destruct (direct_face_id F u v) as [t|] eqn:Q; [|constructor].
+    constructor; [|constructor]. apply direct_face_id_range in Q. rewrite <- HL in Q.
+    pose proof (znth_In_pos w t Q Hpos). unfold mass_edge_share. cbn [odiv three two oadd o1 Rops]. lra. }
+  unfold edge_acc. induction E as [|[a b] E IH]; cbn [map]; constructor; [|exact IH].
+  intros Hf. unfold has_face in Hf. cbn [fst snd] in Hf.
+  apply sumT_pos.
+  - destruct (direct_face_id F a b), (direct_face_id F b a); cbn [app]; try discriminate.
+    destruct Hf as [Hf | Hf]; contradiction.
+  - apply Forall_app. split; apply S1.
+Qed.
+
+Example ex_edge_cover : edge_cover_ok exF exE = true.
+Proof. reflexivity. Qed.
+Example ex_cell_adjacency : cell_adjacency_ok exC = true.
+Proof. reflexivity. Qed.
+Example ex_three : three Rops <> o0 Rops.
+Proof. cbn. lra. Qed.
